@@ -37,10 +37,13 @@ const (
 	// the other Y), form bit 1 = the key is given in its uncompressed encoding
 	formMirror  = 1
 	formUncompr = 2
-	allIDs      = 4 * universe
-	maxKeys     = 8
-	sigKinds    = 4
-	maxSchedCap = 4096
+	// form bit 2 = 33 bytes that look like a compressed key but name no point of the curve (the interop hands the list's
+	// byte strings to the checker as they are; decoding one of these fails)
+	formMalformed = 4
+	allIDs        = 8 * universe
+	maxKeys       = 8
+	sigKinds      = 4
+	maxSchedCap   = 4096
 )
 
 // SigSpec is one signature of the input.
@@ -90,6 +93,9 @@ func (Engine) Draw(rt *rapid.T, prop, tier string) any {
 		}
 		if rapid.IntRange(0, 9).Draw(rt, "uncompressed") == 9 {
 			id += universe * formUncompr
+		}
+		if rapid.IntRange(0, 11).Draw(rt, "malformed") == 11 {
+			id = id%universe + universe*formMalformed
 		}
 		p.Keys = append(p.Keys, id)
 	}
@@ -148,6 +154,7 @@ type keyMat struct {
 	pub  *keys.PublicKey
 	pubB []byte
 	sig  []byte // signature of msgHash
+	bad  bool   // pubB decodes to no key
 }
 
 var (
@@ -172,6 +179,18 @@ func material(id int) *keyMat {
 		d[31] = 1
 	}
 	form := id / universe
+	if form&formMalformed != 0 {
+		// 0x02 || X for the first X (derived from the id) that is not the abscissa of a curve point
+		for ctr := byte(0); ; ctr++ {
+			x := sha256.Sum256(append(seed[:], 'b', 'a', 'd', ctr))
+			b := append([]byte{0x02}, x[:]...)
+			if _, err := keys.NewPublicKeyFromBytes(b, elliptic.P256()); err != nil {
+				m := &keyMat{pubB: b, bad: true}
+				mats[id] = m
+				return m
+			}
+		}
+	}
 	if form&formMirror != 0 {
 		x := new(big.Int).Sub(elliptic.P256().Params().N, new(big.Int).SetBytes(d[:]))
 		x.FillBytes(d[:])
@@ -190,6 +209,9 @@ func material(id int) *keyMat {
 }
 
 func sigBytes(s SigSpec) []byte {
+	if material(s.Key).bad {
+		return make([]byte, 64) // (nobody can sign for a malformed key)
+	}
 	b := append([]byte(nil), material(s.Key).sig...)
 	switch s.Kind {
 	case 1:
@@ -213,6 +235,9 @@ func verifies(keyID int, s SigSpec) bool {
 	if ok {
 		return r
 	}
+	if material(keyID).bad {
+		sim.Harnessf("verifies() asked about a malformed key")
+	}
 	r = material(keyID).pub.Verify(sigBytes(s), msgHash[:])
 	matMu.Lock()
 	verMemo[k] = r
@@ -223,23 +248,39 @@ func verifies(keyID int, s SigSpec) bool {
 // reference is the NeoVM specification of CHECKMULTISIG: i over signatures, j
 // over keys; j always advances, i advances on a match; fail as soon as more
 // signatures than keys remain; accept iff every signature was matched.
-func reference(p *Plan) bool {
+// A key that does not decode faults the execution at the moment the matcher gets to it (reference(p) == wantFault);
+// keys the matcher never gets to are never looked at.
+func reference(p *Plan) int {
 	n, m := len(p.Keys), len(p.Sigs)
 	if n == 0 || m == 0 || m > n {
-		return false
+		return wantFalse
 	}
 	i, j := 0, 0
 	for i < m && j < n {
+		if material(p.Keys[j]).bad {
+			return wantFault
+		}
 		if verifies(p.Keys[j], p.Sigs[i]) {
 			i++
 		}
 		j++
 		if m-i > n-j {
-			return false
+			return wantFalse
 		}
 	}
-	return i == m
+	if i == m {
+		return wantTrue
+	}
+	return wantFalse
 }
+
+const (
+	wantFalse = iota
+	wantTrue
+	wantFault
+)
+
+var wantNames = [...]string{"false", "true", "FAULT"}
 
 func sanitize(p *Plan) *Plan {
 	q := &Plan{Enum: p.Enum, Tape: p.Tape}
@@ -271,6 +312,8 @@ func sanitize(p *Plan) *Plan {
 type schedResult struct {
 	v         *sim.Violation
 	res       bool
+	fault     bool // the call panicked on the caller's goroutine
+	faultMsg  string
 	decisions []int // number of candidates at every decision (>= 2)
 	arrivals  []string
 	reordered int
@@ -338,15 +381,17 @@ func runOnce(t *testing.T, pkeys, sigs [][]byte, tape []uint32, log *sim.Log) *s
 		}
 		sim.Wait()
 		if pv != nil {
-			own = pv
-			return
+			// the interop runs the check on the VM's goroutine: a panic there is the script's FAULT (a panic on a
+			// worker goroutine cannot be recovered by anybody and ends the process)
+			r.fault = true
+			r.faultMsg = pv.Msg
 		}
 		if left := sched.Parked(); len(left) > 0 {
 			own = sim.Violatef("hang", "hang/livelock", "workers still yielding after %d releases: %v", r.steps, left)
 			sched.Drain(1 << 10)
 			return
 		}
-		if !doneF.Load() {
+		if !doneF.Load() && pv == nil {
 			own = sim.Violatef("hang", "hang", "no worker is parked or running and CheckMultisigPar has not returned (arrivals %v)", r.arrivals)
 		}
 	})
@@ -435,12 +480,24 @@ func (Engine) Run(t *testing.T, prop string, planAny any) *sim.Outcome {
 	if m == 1 {
 		out.Probes["single_sig_path"]++
 	}
-	if want {
+	switch want {
+	case wantTrue:
 		out.Probes["result_true"]++
-	} else {
+	case wantFault:
+		out.Probes["result_fault_malformed_key_reached"]++
+	default:
 		out.Probes["result_false"]++
 		if !inv && !foreign {
 			out.Probes["false_by_order_only"]++
+		}
+	}
+	for _, id := range p.Keys {
+		if material(id).bad {
+			out.Probes["malformed_key_in_list"]++
+			if want != wantFault {
+				out.Probes["malformed_key_not_reached_by_in_order_matcher"]++
+			}
+			break
 		}
 	}
 
@@ -458,13 +515,25 @@ func (Engine) Run(t *testing.T, prop string, planAny any) *sim.Outcome {
 			r.v.Msg = fmt.Sprintf("%s keys=%v sigs=%v: %s", what, p.Keys, p.Sigs, r.v.Msg)
 			return r.v
 		}
-		if r.res != want {
+		got := wantFalse
+		switch {
+		case r.fault:
+			got = wantFault
+		case r.res:
+			got = wantTrue
+		}
+		if got != want {
 			kind := "accepts-unmatchable"
-			if want {
+			switch {
+			case want == wantTrue:
 				kind = "rejects-matchable"
+			case want == wantFault:
+				kind = "answers-where-in-order-matcher-faults"
+			case got == wantFault:
+				kind = "faults-where-in-order-matcher-answers"
 			}
 			return sim.Violatef("schedule-dependent-result", "multisig/"+kind,
-				"%s keys=%v sigs=%v: CheckMultisigPar=%v, in-order matcher=%v, arrival order %v", what, p.Keys, p.Sigs, r.res, want, r.arrivals)
+				"%s keys=%v sigs=%v: CheckMultisigPar=%s (%s), in-order matcher=%s, arrival order %v", what, p.Keys, p.Sigs, wantNames[got], r.faultMsg, wantNames[want], r.arrivals)
 		}
 		return nil
 	}
@@ -493,7 +562,7 @@ func (Engine) Run(t *testing.T, prop string, planAny any) *sim.Outcome {
 		for {
 			er := runOnce(t, pkeys, sigs, choice, nil)
 			count++
-			results[er.res]++
+			results[er.res && !er.fault]++
 			orders[strings.Join(er.arrivals, ",")] = true
 			if v := judge(er, fmt.Sprintf("enumerated schedule %v", choice)); v != nil {
 				log.Addf("enum #%d choice=%v -> VIOLATION", count, choice)
